@@ -3,6 +3,8 @@
 package filesystem
 
 import (
+	"fmt"
+
 	"github.com/fsnotify/fsnotify"
 )
 
@@ -14,7 +16,12 @@ func (p *Provider) VerifC18States() map[string][]byte {
 	out := map[string][]byte{}
 
 	p.states.Range(func(key, value any) bool {
-		out[key.(string)] = append([]byte{}, value.([]byte)...) //nolint:forcetypeassert
+		if b, ok := value.([]byte); ok {
+			out[key.(string)] = append([]byte{}, b...) //nolint:forcetypeassert
+		} else {
+			// the remembered state is private: render whatever is kept there
+			out[key.(string)] = []byte(fmt.Sprintf("%v", value)) //nolint:forcetypeassert
+		}
 
 		return true
 	})
